@@ -5,7 +5,7 @@ use crate::parser::check_generics::{CheckGenerics, GetPath};
 use crate::parser::variant_descs::VariantDescs;
 use crate::parser::{process_fields, MsgAttr, MsgType};
 use crate::utils::{extract_return_type, filter_wheres, SvCasing};
-use convert_case::{Case, Casing};
+use convert_case::Case;
 use proc_macro2::TokenStream;
 use quote::{quote, ToTokens};
 use syn::fold::Fold;
@@ -13,6 +13,20 @@ use syn::visit::Visit;
 use syn::{parse_quote, Ident, Signature, Type, WhereClause, WherePredicate};
 
 use super::msg_field::MsgField;
+
+/// Name under which serde (`rename_all = "snake_case"`) exposes an enum variant on the wire.
+/// The lists returned by `*_messages()` have to use the very same rule, otherwise the
+/// contract level message rejects messages its parts accept (e.g. `transfer2_x`).
+fn serde_snake_case(variant: &str) -> String {
+    let mut snake = String::new();
+    for (i, ch) in variant.char_indices() {
+        if i > 0 && ch.is_uppercase() {
+            snake.push('_');
+        }
+        snake.push(ch.to_ascii_lowercase());
+    }
+    snake
+}
 
 /// Representation of whole message variant
 #[derive(Debug)]
@@ -270,7 +284,7 @@ where
     pub fn as_names_snake_cased(&self) -> Vec<String> {
         self.variants
             .iter()
-            .map(|variant| variant.name.to_string().to_case(Case::Snake))
+            .map(|variant| serde_snake_case(&variant.name.to_string()))
             .collect()
     }
 
